@@ -75,8 +75,13 @@ Clauses(o, ev, o2) ==
                     /\ (r.ver # "2" \/ (SWin(o, a) > 0 /\ o.cwin > 0))
                 Unflushed(a) == Settled(a) /\ Wire(o, a).got # ExpLen(o, a) /\ Wire(o, a).ends = 0
                 NoEnd(a) == Settled(a) /\ App(o, a).final /\ ~App(o, a).trailersFlag /\ Wire(o, a).ends = 0
+                \* (with trailers announced the end comes with the last trailers message, as soon as it is handed over)
+                NoEndTr(a) == LET m == App(o, a).lastCall IN
+                              /\ Settled(a) /\ App(o, a).final /\ App(o, a).trailersFlag /\ Wire(o, a).ends = 0
+                              /\ m.type = "http.response.trailers" /\ ~(Has(m, "more") /\ m.more)
             IN (IF \E a \in DOMAIN o.apps : Unflushed(a) THEN <<F("flushed", "")>> ELSE <<>>)
             \o (IF \E a \in DOMAIN o.apps : NoEnd(a) THEN <<F("end-missing", "")>> ELSE <<>>)
+            \o (IF \E a \in DOMAIN o.apps : NoEndTr(a) THEN <<F("end-missing", "after-trailers")>> ELSE <<>>)
       [] OTHER -> <<>>
 
 MInit == [o |-> OInit, fails |-> <<>>]
